@@ -883,30 +883,6 @@ def g_ground(rng, tier, rich, contingent):
     return ["ground", ["atoms"] + atoms, ["actions"] + acts, ["goal", goal], ["init", init], ["bounds", str(lk), str(lc)]]
 
 
-def template_cases():
-    """hand-shaped structures that random generation reaches rarely"""
-    T = lambda *ls: [[list(l) for l in ls]]
-    yield ["ground", ["atoms", "p", "t"],                      # reasoning by cases: a fires iff p, b iff not p
-           ["actions", ["a", ["pre", T()], ["effs", [T(("p", "T")), "t", "T"]]],
-                       ["b", ["pre", T()], ["effs", [T(("p", "F")), "t", "T"]]]],
-           ["goal", T(("t", "T"))], ["init", ["states", ["T", "F"], ["F", "F"]]], ["bounds", "4", "2"]]
-    yield ["ground", ["atoms", "p", "q", "t"],                 # precondition needs a merge; u-like irrelevant difference
-           ["actions", ["a", ["pre", T(("q", "T"))], ["effs", [T(), "t", "T"], [T(("t", "F")), "p", "F"]]]],
-           ["goal", T(("t", "T"), ("p", "F"))], ["init", ["states", ["T", "T", "F"], ["F", "T", "F"], ["T", "T", "F"]]],
-           ["bounds", "4", "2"]]
-    yield ["ground", ["atoms", "p", "q", "t"],                 # cancellation: knowledge of t must be forgotten
-           ["actions", ["a", ["pre", T()], ["effs", [T(("p", "T")), "t", "F"]]],
-                       ["b", ["pre", T(("t", "T"))], ["effs", [T(), "q", "T"]]]],
-           ["goal", T(("q", "T"))], ["init", ["states", ["T", "F", "T"], ["F", "F", "T"]]], ["bounds", "4", "2"]]
-    yield ["ground", ["atoms", "a1", "b1", "g"],               # witness of D-C30-disjunctive
-           ["actions", ["act", ["pre", [[["a1", "T"]], [["b1", "T"]]]], ["effs", [T(), "g", "T"]]]],
-           ["goal", T(("g", "T"))], ["init", ["states", ["T", "F", "F"], ["F", "T", "F"]]], ["bounds", "3", "2"]]
-    yield ["ground", ["atoms", "p", "q"],                      # oneof over two atoms + unknown
-           ["actions", ["a", ["pre", T()], ["effs", [T(("p", "T")), "q", "T"]]]],
-           ["goal", T(("q", "T"))],
-           ["init", ["contingent", ["known", "F", "F"], ["cons", ["oneof", ["p", "T"], ["q", "T"]]]]], ["bounds", "3", "2"]]
-
-
 L_OBJS = ["o1", "o2"]
 L_FLUENTS = [["p", "1"], ["q", "1"], ["r", "0"], ["g", "0"]]
 
@@ -965,8 +941,7 @@ def g_lifted(rng, tier):
 
 
 def cases(rng, tier):
-    yield from template_cases()
-    n = 110 if tier == "quick" else 2500
+    n = 380 if tier == "quick" else 6000
     for i in range(n):
         k = rng.random()
         if k < 0.5:
